@@ -243,8 +243,17 @@ Definition access_ok (i : minstr) (s : mstate) (m : bmem) : Prop :=
   | _ => True
   end.
 
+(* madd/maddu/msub/msubu use two temporaries: their ids must differ (the lifter names them after the
+   instruction address and address + 1; the harness interns names, so dumped ids are distinct) *)
+Definition temps_distinct (i : minstr) (ts : list N) : Prop :=
+  match i with
+  | MMulDiv MMadd _ _ | MMulDiv MMaddu _ _ | MMulDiv MMsub _ _ | MMulDiv MMsubu _ _ => nthN ts 0 <> nthN ts 1
+  | _ => True
+  end.
+
 Definition plain_correct (bg : bool) (i : minstr) : Prop :=
   forall a ts s st, wf_m s -> big s = bg -> emb s st -> temps_ok ts -> access_ok i s (st_mem st) ->
+    temps_distinct i ts ->
     match lift_plain bg i a ts with
     | None => True
     | Some (Ok g) => post (exec1 i s) st (run_graph g st)
@@ -358,7 +367,7 @@ Definition alu3_simple (o : alu3) : bool :=
 Theorem alu3_simple_correct bg o rd rs rt :
   alu3_simple o = true -> reg_ok rd -> reg_ok rs -> reg_ok rt -> plain_correct bg (MAlu3 o rd rs rt).
 Proof.
-  intros Ho Hd Hs Ht a ts s st Hw Hb He Hts Hacc.
+  intros Ho Hd Hs Ht a ts s st Hw Hb He Hts Hacc Htd.
   pose proof (gpr_range s rs Hw) as Rs. pose proof (gpr_range s rt Hw) as Rt. pose proof (gpr_zero s Hw) as Z0.
   destruct o; try discriminate Ho; cbn [lift_plain exec1 exec_alu3].
   - (* addu / move *)
@@ -415,7 +424,7 @@ Qed.
 Theorem shi_correct bg o rd rt sa :
   reg_ok rd -> reg_ok rt -> 0 <= sa < 32 -> plain_correct bg (MShi o rd rt sa).
 Proof.
-  intros Hd Ht Hsa a ts s st Hw Hb He Hts Hacc.
+  intros Hd Ht Hsa a ts s st Hw Hb He Hts Hacc Htd.
   assert (Hsa' : sa mod 2 ^ 32 = sa) by (apply Z.mod_small; lia).
   assert (G : forall bo, bo = shop_binop o ->
             match b_shi (Some a) bo rd rt sa with
@@ -440,7 +449,7 @@ Qed.
 Theorem shv_correct bg o rd rt rs :
   reg_ok rd -> reg_ok rt -> reg_ok rs -> plain_correct bg (MShv o rd rt rs).
 Proof.
-  intros Hd Ht Hs a ts s st Hw Hb He Hts Hacc.
+  intros Hd Ht Hs a ts s st Hw Hb He Hts Hacc Htd.
   pose proof (gpr_range s rs Hw) as Rs.
   assert (Hn : 0 <= gpr s rs mod 32 < 32) by (apply Z.mod_pos_bound; lia).
   cbn [lift_plain exec1]. fold (shop_binop o). unfold b_shv. builder_ok.
@@ -458,7 +467,7 @@ Definition alui_simple (o : alui) : bool :=
 Theorem alui_simple_correct bg o rt rs imm :
   alui_simple o = true -> reg_ok rt -> reg_ok rs -> 0 <= imm < 2 ^ 16 -> plain_correct bg (MAluI o rt rs imm).
 Proof.
-  intros Ho Ht Hs Hi a ts s st Hw Hb He Hts Hacc.
+  intros Ho Ht Hs Hi a ts s st Hw Hb He Hts Hacc Htd.
   assert (Him : imm mod 2 ^ 32 = imm) by (apply Z.mod_small; lia).
   destruct o; try discriminate Ho; cbn [lift_plain exec1 exec_alui]; unfold b_bini; builder_ok;
     (eapply post_assign_reg; [assumption|assumption|den_tac|]).
@@ -470,7 +479,7 @@ Qed.
 
 Theorem lui_correct bg rt imm : reg_ok rt -> 0 <= imm < 2 ^ 16 -> plain_correct bg (MLui rt imm).
 Proof.
-  intros Ht Hi a ts s st Hw Hb He Hts Hacc. cbn [lift_plain exec1]. unfold b_lui.
+  intros Ht Hi a ts s st Hw Hb He Hts Hacc Htd. cbn [lift_plain exec1]. unfold b_lui.
   eapply post_assign_reg; [assumption|assumption|den_tac|]. apply Z.mod_small. lia.
 Qed.
 
@@ -482,22 +491,22 @@ Proof. intros He. cbn [den]. rewrite skey_sc, (emb_lo _ _ He). reflexivity. Qed.
 
 Theorem mfhi_correct bg rd : reg_ok rd -> plain_correct bg (MMfhi rd).
 Proof.
-  intros Hd a ts s st Hw Hb He Hts Hacc. cbn [lift_plain exec1]. unfold b_mfhilo.
+  intros Hd a ts s st Hw Hb He Hts Hacc Htd. cbn [lift_plain exec1]. unfold b_mfhilo.
   eapply post_assign_reg; [assumption|assumption|eapply den_hi; eassumption|reflexivity].
 Qed.
 Theorem mflo_correct bg rd : reg_ok rd -> plain_correct bg (MMflo rd).
 Proof.
-  intros Hd a ts s st Hw Hb He Hts Hacc. cbn [lift_plain exec1]. unfold b_mfhilo.
+  intros Hd a ts s st Hw Hb He Hts Hacc Htd. cbn [lift_plain exec1]. unfold b_mfhilo.
   eapply post_assign_reg; [assumption|assumption|eapply den_lo; eassumption|reflexivity].
 Qed.
 Theorem mthi_correct bg rs : reg_ok rs -> plain_correct bg (MMthi rs).
 Proof.
-  intros Hs a ts s st Hw Hb He Hts Hacc. cbn [lift_plain exec1]. unfold b_mthilo.
+  intros Hs a ts s st Hw Hb He Hts Hacc Htd. cbn [lift_plain exec1]. unfold b_mthilo.
   eapply post_assign_hi; [assumption|den_tac|reflexivity].
 Qed.
 Theorem mtlo_correct bg rs : reg_ok rs -> plain_correct bg (MMtlo rs).
 Proof.
-  intros Hs a ts s st Hw Hb He Hts Hacc. cbn [lift_plain exec1]. unfold b_mthilo.
+  intros Hs a ts s st Hw Hb He Hts Hacc Htd. cbn [lift_plain exec1]. unfold b_mthilo.
   eapply post_assign_lo; [assumption|den_tac|reflexivity].
 Qed.
 
@@ -604,7 +613,7 @@ Qed.
 Theorem slt_correct bg o rd rs rt : (o = ASlt \/ o = ASltu) ->
   reg_ok rd -> reg_ok rs -> reg_ok rt -> plain_correct bg (MAlu3 o rd rs rt).
 Proof.
-  intros Ho Hd Hs Ht a ts s st Hw Hb He Hts Hacc.
+  intros Ho Hd Hs Ht a ts s st Hw Hb He Hts Hacc Htd.
   destruct Ho as [-> | ->]; cbn [lift_plain exec1 exec_alu3].
   - eapply (setlt_post s st (Some a) Cmplts rd _ _ _ _ (S 32 (gpr s rs) <? S 32 (gpr s rt)));
       [assumption|assumption|reflexivity|apply e_bits_reg|apply e_bits_reg|den_tac|den_tac|].
@@ -629,7 +638,7 @@ Qed.
 Theorem slti_correct bg o rt rs imm : (o = ISlti \/ o = ISltiu) ->
   reg_ok rt -> reg_ok rs -> 0 <= imm < 2 ^ 16 -> plain_correct bg (MAluI o rt rs imm).
 Proof.
-  intros Ho Ht Hs Hi a ts s st Hw Hb He Hts Hacc.
+  intros Ho Ht Hs Hi a ts s st Hw Hb He Hts Hacc Htd.
   destruct Ho as [-> | ->]; cbn [lift_plain exec1 exec_alui].
   - eapply (setlt_post s st (Some a) Cmplts rt _ _ _ _ (S 32 (gpr s rs) <? sx16 imm));
       [assumption|assumption|reflexivity|apply e_bits_reg|reflexivity|den_tac|den_tac|].
@@ -645,7 +654,7 @@ Qed.
 Theorem movc_correct bg o rd rs rt : (o = AMovn \/ o = AMovz) ->
   reg_ok rd -> reg_ok rs -> reg_ok rt -> plain_correct bg (MAlu3 o rd rs rt).
 Proof.
-  intros Ho Hd Hs Ht a ts s st Hw Hb He Hts Hacc.
+  intros Ho Hd Hs Ht a ts s st Hw Hb He Hts Hacc Htd.
   assert (Z32 : 0 mod 2 ^ 32 = 0) by reflexivity.
   destruct Ho as [-> | ->]; cbn [lift_plain exec1 exec_alu3]; unfold b_movc; builder_ok.
   - (* movn: take if rt <> 0 *)
@@ -763,7 +772,7 @@ Qed.
 Theorem add_sub_correct bg o rd rs rt : (o = AAdd \/ o = ASub) ->
   reg_ok rd -> reg_ok rs -> reg_ok rt -> plain_correct bg (MAlu3 o rd rs rt).
 Proof.
-  intros Ho Hd Hs Ht a ts s st Hw Hb He Hts Hacc.
+  intros Ho Hd Hs Ht a ts s st Hw Hb He Hts Hacc Htd.
   pose proof (gpr_range s rs Hw) as Rs. pose proof (gpr_range s rt Hw) as Rt.
   destruct Ho as [-> | ->]; cbn [lift_plain exec1 exec_alu3].
   - unfold b_add.
@@ -777,7 +786,7 @@ Qed.
 Theorem addi_correct bg rt rs imm :
   reg_ok rt -> reg_ok rs -> 0 <= imm < 2 ^ 16 -> plain_correct bg (MAluI IAddi rt rs imm).
 Proof.
-  intros Ht Hs Hi a ts s st Hw Hb He Hts Hacc.
+  intros Ht Hs Hi a ts s st Hw Hb He Hts Hacc Htd.
   pose proof (gpr_range s rs Hw) as Rs.
   cbn [lift_plain exec1 exec_alui]. unfold b_addi.
   rewrite <- (S32_simm imm Hi).
@@ -803,7 +812,7 @@ Qed.
 
 Theorem teq_correct bg rs rt code : reg_ok rs -> reg_ok rt -> plain_correct bg (MTeq rs rt code).
 Proof.
-  intros Hs Ht a ts s st Hw Hb He Hts Hacc. cbn [lift_plain exec1]. unfold b_teq. builder_ok.
+  intros Hs Ht a ts s st Hw Hb He Hts Hacc Htd. cbn [lift_plain exec1]. unfold b_teq. builder_ok.
   assert (De : den (st_env st) (EBin Cmpeq (reg_expr rs) (reg_expr rt)) = Ok (mkc 1 (if gpr s rs =? gpr s rt then 1 else 0))).
   { eapply eq_trans; [eapply den_bin; den_tac|reflexivity]. }
   assert (Dn : den (st_env st) (EBin Cmpneq (reg_expr rs) (reg_expr rt)) = Ok (mkc 1 (if gpr s rs =? gpr s rt then 0 else 1))).
@@ -818,12 +827,12 @@ Qed.
 
 Theorem break_correct bg code : plain_correct bg (MBreak code).
 Proof.
-  intros a ts s st Hw Hb He Hts Hacc. cbn [lift_plain exec1]. unfold b_intr. rewrite run_single.
+  intros a ts s st Hw Hb He Hts Hacc Htd. cbn [lift_plain exec1]. unfold b_intr. rewrite run_single.
   apply post_i_trap; [assumption|reflexivity].
 Qed.
 Theorem syscall_correct bg code : plain_correct bg (MSyscall code).
 Proof.
-  intros a ts s st Hw Hb He Hts Hacc. cbn [lift_plain exec1]. unfold b_intr. rewrite run_single.
+  intros a ts s st Hw Hb He Hts Hacc Htd. cbn [lift_plain exec1]. unfold b_intr. rewrite run_single.
   apply post_i_trap; [assumption|reflexivity].
 Qed.
 Lemma nop_post s st ad : emb s st -> post (ok s) st (run_graph (single ad [ONop None]) st).
@@ -832,9 +841,9 @@ Proof.
   split; [reflexivity|]. split; [apply emb_emb_u; assumption|reflexivity].
 Qed.
 Theorem sync_correct bg stype : plain_correct bg (MSync stype).
-Proof. intros a ts s st Hw Hb He Hts Hacc. cbn [lift_plain exec1]. unfold b_nop. apply nop_post. assumption. Qed.
+Proof. intros a ts s st Hw Hb He Hts Hacc Htd. cbn [lift_plain exec1]. unfold b_nop. apply nop_post. assumption. Qed.
 Theorem pref_correct bg h b o : plain_correct bg (MPref h b o).
-Proof. intros a ts s st Hw Hb He Hts Hacc. cbn [lift_plain exec1]. unfold b_nop. apply nop_post. assumption. Qed.
+Proof. intros a ts s st Hw Hb He Hts Hacc Htd. cbn [lift_plain exec1]. unfold b_nop. apply nop_post. assumption. Qed.
 
 (* ================================================================== translated blocks *)
 Definition block_post (r : mresult) (st : sstate) (o : outcome) : Prop :=
@@ -856,14 +865,14 @@ Proof. intros [A B C D E]. constructor; auto. Qed.
 Theorem single_block_correct bg a w i temps s st :
   decode w = Some i -> is_control i = false -> plain_correct bg i ->
   wf_m s -> big s = bg -> pc s = a -> 0 <= a -> a + 8 < 2 ^ 32 -> emb s st -> temps_ok (nth 0 temps []) ->
-  access_ok i s (st_mem st) ->
+  access_ok i s (st_mem st) -> temps_distinct i (nth 0 temps []) ->
   match mirror_block bg a [w] temps with
   | None => True
   | Some l => block_post (mrun [w] s) st (run_block (map snd (fst l)) (snd l) st)
   end.
 Proof.
-  intros Hdec Hc Hpc Hw Hb Hp Ha0 Ha He Hts Hacc. unfold mirror_block, mrun. rewrite Hdec, Hc.
-  specialize (Hpc a (nth 0 temps []) s st Hw Hb He Hts Hacc). unfold okc.
+  intros Hdec Hc Hpc Hw Hb Hp Ha0 Ha He Hts Hacc Htd. unfold mirror_block, mrun. rewrite Hdec, Hc.
+  specialize (Hpc a (nth 0 temps []) s st Hw Hb He Hts Hacc Htd). unfold okc.
   destruct (lift_plain bg i a (nth 0 temps [])) as [[g| |]|]; try exact I.
   cbn [fst snd map]. unfold mstep1. rewrite Hc. unfold run_block. cbn [run_seq].
   destruct (exec1 i s) as [s' uh ul|t s'|]; cbn [post block_post] in *.
@@ -897,14 +906,15 @@ Proof. apply not_arch_kreg; unfold R_BC; lia. Qed.
 Lemma branch_core bg sl a ts s1 st st1 p sg q succs tgt :
   plain_correct bg sl -> lift_plain bg sl (a + 4) ts = Some (Ok sg) -> temps_ok ts ->
   wf_m s1 -> big s1 = bg -> emb s1 st1 -> run_graph p st = Fin st1 -> access_ok sl s1 (st_mem st1) ->
+  temps_distinct sl ts ->
   (forall s2 uh ul st2, exec1 sl s1 = MOk s2 uh ul -> emb_u uh ul s2 st2 ->
      env_get (st_env st2) kbc = env_get (st_env st1) kbc ->
      exists st3, run_block [q] succs st2 = Goto tgt st3 /\ emb_u uh ul s2 st3) ->
   block_post (match exec1 sl s1 with MOk s2 uh ul => MOk (set_pc s2 tgt) uh ul | r => r end) st
              (run_block [p; sg; q] succs st).
 Proof.
-  intros Hpc Hl Hts Hw Hb He Hp Hacc Hk.
-  specialize (Hpc (a + 4) ts s1 st1 Hw Hb He Hts Hacc). rewrite Hl in Hpc.
+  intros Hpc Hl Hts Hw Hb He Hp Hacc Htd Hk.
+  specialize (Hpc (a + 4) ts s1 st1 Hw Hb He Hts Hacc Htd). rewrite Hl in Hpc.
   rewrite run_block_cons, Hp, run_block_cons.
   destruct (exec1 sl s1) as [s2 uh ul|t s2|]; cbn [post block_post] in *.
   - destruct Hpc as (st2 & -> & Hemb & Hfr).
@@ -999,7 +1009,7 @@ Proof. rewrite run_block_cons, run_empty. reflexivity. Qed.
 Lemma cond_branch_case bg sl a ts s st sg e (taken : bool) off n :
   plain_correct bg sl -> lift_plain bg sl (a + 4) ts = Some (Ok sg) -> temps_ok ts ->
   wf_m s -> big s = bg -> emb s st -> pc s = a -> 0 <= a -> a + 8 < 2 ^ 32 -> off_ok a off ->
-  access_ok sl s (st_mem st) ->
+  access_ok sl s (st_mem st) -> temps_distinct sl ts ->
   den (st_env st) e = Ok (mkc 1 (if taken then 1 else 0)) -> not1 bc_expr = Ok n ->
   block_post (match exec1 sl s with
               | MOk s2 uh ul => MOk (set_pc s2 (if taken then btarget s off else a32 (pc s + 8))) uh ul
@@ -1007,7 +1017,7 @@ Lemma cond_branch_case bg sl a ts s st sg e (taken : bool) off n :
     (run_block [single (Some a) [OAssign bc_scalar e]; sg; single (Some (a + 1)) []]
                (merge_succs [(cs_btarget a off, Some bc_expr); (a + 8, Some n)]) st).
 Proof.
-  intros Hpl Hl Hts Hw Hb He Hp Ha0 Ha Ho Hacc De Hn.
+  intros Hpl Hl Hts Hw Hb He Hp Ha0 Ha Ho Hacc Htd De Hn.
   set (cv := if taken then 1 else 0) in *.
   eapply (branch_core bg sl a ts s st (set_env st kbc (mkc 1 cv))); try eassumption.
   - apply emb_set_other; [assumption|apply not_arch_kbc].
@@ -1026,11 +1036,11 @@ Qed.
 (* unconditional direct branches (j, b): nop before the slot, one unguarded successor *)
 Lemma uncond_branch_case bg sl a ts s st sg tgt :
   plain_correct bg sl -> lift_plain bg sl (a + 4) ts = Some (Ok sg) -> temps_ok ts ->
-  wf_m s -> big s = bg -> emb s st -> access_ok sl s (st_mem st) ->
+  wf_m s -> big s = bg -> emb s st -> access_ok sl s (st_mem st) -> temps_distinct sl ts ->
   block_post (match exec1 sl s with MOk s2 uh ul => MOk (set_pc s2 tgt) uh ul | r => r end) st
     (run_block [single (Some a) [ONop None]; sg; single (Some (a + 1)) []] (merge_succs [(tgt, None)]) st).
 Proof.
-  intros Hpl Hl Hts Hw Hb He Hacc.
+  intros Hpl Hl Hts Hw Hb He Hacc Htd.
   eapply (branch_core bg sl a ts s st st); try eassumption.
   - apply run_nop_graph.
   - intros s2 uh ul st2 _ He2 _. exists st2. split; [rewrite merge_one; apply run_block_succ1|assumption].
@@ -1055,7 +1065,7 @@ Definition branch_correct (bg : bool) (b : minstr) : Prop :=
   forall a sl ts s st,
   is_control sl = false -> plain_correct bg sl -> branch_ok a b -> target_stable b sl s ->
   wf_m s -> big s = bg -> pc s = a -> 0 <= a -> a + 8 < 2 ^ 32 -> emb s st -> temps_ok ts ->
-  access_ok sl (link_state b s) (st_mem st) ->
+  access_ok sl (link_state b s) (st_mem st) -> temps_distinct sl ts ->
   match okc (pre_graph b a), okc (lift_plain bg sl (a + 4) ts), okc (post_graph b a) with
   | Some p, Some sg, Some q => block_post (mstep2 b sl s) st (run_block [p; sg; q] (merge_succs (succs_of b a)) st)
   | _, _, _ => True
@@ -1075,7 +1085,7 @@ Ltac slot_split Hsg :=
 
 Theorem j_correct bg idx : branch_correct bg (MJ idx).
 Proof.
-  intros a sl ts s st Hcs Hpl Hbo Hstab Hw Hb Hp Ha0 Ha He Hts Hacc.
+  intros a sl ts s st Hcs Hpl Hbo Hstab Hw Hb Hp Ha0 Ha He Hts Hacc Htd.
   cbn [pre_graph post_graph succs_of]. unfold b_nop, b_empty. cbn [okc]. slot_split Hsg.
   unfold mstep2. cbn [branch_info b_link b_taken b_target]. rewrite Hcs.
   rewrite <- (cs_jtarget_eq s a idx Hp Ha0 Ha).
@@ -1084,7 +1094,7 @@ Qed.
 
 Theorem br2_correct bg c rs rt off : branch_correct bg (MBr2 c rs rt off).
 Proof.
-  intros a sl ts s st Hcs Hpl (Hs & Ht & Ho) Hstab Hw Hb Hp Ha0 Ha He Hts Hacc.
+  intros a sl ts s st Hcs Hpl (Hs & Ht & Ho) Hstab Hw Hb Hp Ha0 Ha He Hts Hacc Htd.
   pose proof (gpr_zero s Hw) as Z0.
   unfold mstep2. rewrite Hcs.
   destruct c; cbn [pre_graph post_graph succs_of branch_info b_link b_taken b_target].
@@ -1112,7 +1122,7 @@ Qed.
 
 Theorem brz_correct bg c rs off : branch_correct bg (MBrz c rs off).
 Proof.
-  intros a sl ts s st Hcs Hpl (Hs & Ho) Hstab Hw Hb Hp Ha0 Ha He Hts Hacc.
+  intros a sl ts s st Hcs Hpl (Hs & Ho) Hstab Hw Hb Hp Ha0 Ha He Hts Hacc Htd.
   pose proof (gpr_range s rs Hw) as Rs.
   unfold mstep2. rewrite Hcs.
   destruct c; cbn [pre_graph post_graph succs_of branch_info b_link b_taken b_target];
@@ -1140,7 +1150,7 @@ Proof. unfold setr. destruct (r =? 0); reflexivity. Qed.
 
 Theorem jal_correct bg idx : branch_correct bg (MJal idx).
 Proof.
-  intros a sl ts s st Hcs Hpl Hbo Hstab Hw Hb Hp Ha0 Ha He Hts Hacc.
+  intros a sl ts s st Hcs Hpl Hbo Hstab Hw Hb Hp Ha0 Ha He Hts Hacc Htd.
   cbn [pre_graph post_graph succs_of]. unfold b_branch_const. cbn [okc]. slot_split Hsg.
   unfold mstep2. cbn [branch_info b_link b_taken b_target]. rewrite Hcs.
   destruct (link_graph_run s st a 31 He ltac:(unfold reg_ok; lia) Hp Ha0 Ha) as [Hrun Hemb].
@@ -1156,7 +1166,7 @@ Qed.
 
 Theorem jr_correct bg rs : branch_correct bg (MJr rs).
 Proof.
-  intros a sl ts s st Hcs Hpl Hbo Hstab Hw Hb Hp Ha0 Ha He Hts Hacc.
+  intros a sl ts s st Hcs Hpl Hbo Hstab Hw Hb Hp Ha0 Ha He Hts Hacc Htd.
   cbn [pre_graph post_graph succs_of]. unfold b_nop, b_branch_reg. cbn [okc]. slot_split Hsg.
   unfold mstep2. cbn [branch_info b_link b_taken b_target]. rewrite Hcs.
   cbn [target_stable] in Hstab. unfold link_state in Hstab. cbn [branch_info b_link] in Hstab.
@@ -1171,7 +1181,7 @@ Qed.
 
 Theorem jalr_correct bg rd rs : branch_correct bg (MJalr rd rs).
 Proof.
-  intros a sl ts s st Hcs Hpl (Hd & Hs) Hstab Hw Hb Hp Ha0 Ha He Hts Hacc.
+  intros a sl ts s st Hcs Hpl (Hd & Hs) Hstab Hw Hb Hp Ha0 Ha He Hts Hacc Htd.
   unfold mstep2. cbn [branch_info]. cbn [target_stable] in Hstab. unfold link_state in Hstab. cbn [branch_info] in Hstab.
   unfold link_state in Hacc. cbn [branch_info] in Hacc.
   destruct (Z.eqb_spec rd rs) as [->|Nds].
@@ -1191,7 +1201,7 @@ Proof.
   - destruct (link_graph_run s st a rd He Hd Hp Ha0 Ha) as [Hrun Hemb].
     assert (Hw1 : wf_m (setr s rd (a32 (pc s + 8)))) by (apply wf_setr; [assumption|apply a32_range]).
     assert (Hb1 : big (setr s rd (a32 (pc s + 8))) = bg) by (rewrite big_setr; assumption).
-    eapply (branch_core bg sl a ts _ st _ _ _ _ _ _ Hpl Hsg Hts Hw1 Hb1 Hemb Hrun Hacc).
+    eapply (branch_core bg sl a ts _ st _ _ _ _ _ _ Hpl Hsg Hts Hw1 Hb1 Hemb Hrun Hacc Htd).
     + intros s2 uh ul st2 Hex He2 _. destruct (Hstab s2 uh ul Hex) as [Hsame Hz]. exists st2. split; [|assumption].
       rewrite run_block_cons. erewrite run_branch_op.
       * reflexivity.
@@ -1209,7 +1219,7 @@ Proof. reflexivity. Qed.
 Lemma cond_link_case bg sl a ts s st sg e (taken : bool) off :
   plain_correct bg sl -> lift_plain bg sl (a + 4) ts = Some (Ok sg) -> temps_ok ts ->
   wf_m s -> big s = bg -> emb s st -> pc s = a -> 0 <= a -> a + 8 < 2 ^ 32 -> off_ok a off ->
-  access_ok sl (setr s 31 (a32 (pc s + 8))) (st_mem st) ->
+  access_ok sl (setr s 31 (a32 (pc s + 8))) (st_mem st) -> temps_distinct sl ts ->
   den (st_env st) e = Ok (mkc 1 (if taken then 1 else 0)) ->
   match b_cond_link (Some (a + 1)) (cs_btarget a off) with
   | Ok q =>
@@ -1221,7 +1231,7 @@ Lemma cond_link_case bg sl a ts s st sg e (taken : bool) off :
   | _ => False
   end.
 Proof.
-  intros Hpl Hl Hts Hw Hb He Hp Ha0 Ha Ho Hacc De.
+  intros Hpl Hl Hts Hw Hb He Hp Ha0 Ha Ho Hacc Htd De.
   rewrite b_cond_link_eq.
   set (cv := if taken then 1 else 0) in *.
   set (st0 := set_env st kbc (mkc 1 cv)).
@@ -1248,7 +1258,7 @@ Qed.
 
 Theorem brzal_correct bg c rs off : branch_correct bg (MBrzal c rs off).
 Proof.
-  intros a sl ts s st Hcs Hpl (Hs & Ho) Hstab Hw Hb Hp Ha0 Ha He Hts Hacc.
+  intros a sl ts s st Hcs Hpl (Hs & Ho) Hstab Hw Hb Hp Ha0 Ha He Hts Hacc Htd.
   pose proof (gpr_range s rs Hw) as Rs. pose proof (gpr_zero s Hw) as Z0.
   unfold mstep2. cbn [branch_info].
   destruct (Z.eqb_spec rs 31) as [->|N31].
@@ -1263,7 +1273,7 @@ Proof.
     destruct (b_cond_link (Some (a + 1)) (cs_btarget a off)) as [q| |] eqn:Eq.
     2,3: (exfalso; rewrite b_cond_link_eq in Eq; discriminate Eq).
     cbn [okc]. slot_split Hsg.
-    specialize (L sg (EBin Cmplts (reg_expr rs) (expr_const 0 32)) (S 32 (gpr s rs) <? 0) off Hpl Hsg Hts Hw Hb He Hp Ha0 Ha Ho Hacc').
+    specialize (L sg (EBin Cmplts (reg_expr rs) (expr_const 0 32)) (S 32 (gpr s rs) <? 0) off Hpl Hsg Hts Hw Hb He Hp Ha0 Ha Ho Hacc' Htd).
     rewrite Eq in L. apply L.
     eapply eq_trans; [eapply den_bin; den_tac|]. cbn [sp_bin]. unfold s_cmplts. change (0 mod 2 ^ 32) with 0. rewrite S32_0. reflexivity.
   - (* bgezal / bal *)
@@ -1284,7 +1294,7 @@ Proof.
       destruct (b_cond_link (Some (a + 1)) (cs_btarget a off)) as [q| |] eqn:Eq.
       2,3: (exfalso; rewrite b_cond_link_eq in Eq; discriminate Eq).
       cbn [okc]. slot_split Hsg.
-      specialize (L sg (EBin Cmpeq (EBin Cmplts (reg_expr rs) (expr_const 0 32)) (expr_const 0 1)) (0 <=? S 32 (gpr s rs)) off Hpl Hsg Hts Hw Hb He Hp Ha0 Ha Ho Hacc').
+      specialize (L sg (EBin Cmpeq (EBin Cmplts (reg_expr rs) (expr_const 0 32)) (expr_const 0 1)) (0 <=? S 32 (gpr s rs)) off Hpl Hsg Hts Hw Hb He Hp Ha0 Ha Ho Hacc' Htd).
       rewrite Eq in L. apply L.
       fold c0_1. erewrite den_not1; [|eapply eq_trans; [eapply den_bin; den_tac|reflexivity]].
       unfold s_cmplts. change (0 mod 2 ^ 32) with 0. rewrite S32_0. f_equal. f_equal.
@@ -1296,15 +1306,15 @@ Theorem branch_block_correct bg a w1 w2 b sl temps s st :
   decode w1 = Some b -> decode w2 = Some sl -> is_control b = true -> is_control sl = false ->
   branch_correct bg b -> plain_correct bg sl -> branch_ok a b -> target_stable b sl s ->
   wf_m s -> big s = bg -> pc s = a -> 0 <= a -> a + 8 < 2 ^ 32 -> emb s st -> temps_ok (nth 1 temps []) ->
-  access_ok sl (link_state b s) (st_mem st) ->
+  access_ok sl (link_state b s) (st_mem st) -> temps_distinct sl (nth 1 temps []) ->
   match mirror_block bg a [w1; w2] temps with
   | None => True
   | Some l => block_post (mrun [w1; w2] s) st (run_block (map snd (fst l)) (snd l) st)
   end.
 Proof.
-  intros D1 D2 Cb Cs Hbr Hpl Hbo Hstab Hw Hb Hp Ha0 Ha He Hts Hacc.
+  intros D1 D2 Cb Cs Hbr Hpl Hbo Hstab Hw Hb Hp Ha0 Ha He Hts Hacc Htd.
   unfold mirror_block, mrun. rewrite D1, D2, Cb, Cs. cbn [negb orb].
-  specialize (Hbr a sl (nth 1 temps []) s st Cs Hpl Hbo Hstab Hw Hb Hp Ha0 Ha He Hts Hacc).
+  specialize (Hbr a sl (nth 1 temps []) s st Cs Hpl Hbo Hstab Hw Hb Hp Ha0 Ha He Hts Hacc Htd).
   destruct (okc (pre_graph b a)), (okc (lift_plain bg sl (a + 4) (nth 1 temps []))), (okc (post_graph b a)); try exact I.
   exact Hbr.
 Qed.
